@@ -11,7 +11,7 @@ import (
 )
 
 // classes whose effect the model states (a `…_witness` theorem exists): on these the model must predict the failure
-var modelExpresses = map[string]bool{"method-value-variadic": true, "script-dyn-variadic-elem": true}
+var modelExpresses = map[string]bool{"script-dyn-variadic-elem": true}
 
 func boxedInside(v *Val) bool {
 	return anyVal(v, func(x *Val) bool {
@@ -206,8 +206,8 @@ func modelLine(c *Case) string {
 		case "cond":
 			ctx = "(cond)"
 		}
-		return fmt.Sprintf("C07 call (recv %s %s %s) %s %s %s %s (velem %s) %s %s %d",
-			b01(hasRecv), b01(isIface), b01(inSig), b01(c.Sig.Variadic), b01(c.Spread), b01(c.Ctx == "defer"),
+		return fmt.Sprintf("C07 call (recv %s %s %s %s) %s %s %s %s (velem %s) %s %s %d",
+			b01(hasRecv), b01(isIface), b01(inSig), b01(c.Recv == "mvalue" || c.Recv == "sptrmv"), b01(c.Sig.Variadic), b01(c.Spread), b01(c.Ctx == "defer"),
 			common.L(append([]string{"params"}, params...)...), common.Q(velem),
 			common.L(append([]string{"args"}, args...)...), ctx, len(c.Sig.Out))
 	}
